@@ -215,6 +215,11 @@ macro_rules! define_interposers {
             fcntl(fd, cmd, arg)
         }
         #[no_mangle]
+        pub unsafe extern "C" fn dup(a: __c_int) -> __c_int {
+            // (the lowest free descriptor, inheritable: the same thing as fcntl(F_DUPFD, 0), and recorded as such)
+            fcntl(a, libc::F_DUPFD, 0)
+        }
+        #[no_mangle]
         pub unsafe extern "C" fn dup2(a: __c_int, b: __c_int) -> __c_int {
             if let Some(f) = $crate::hooks::hooks().dup2 {
                 if let Some(r) = f(a, b) {
